@@ -427,3 +427,24 @@ def rule_CBS(ctx, tier):
             rr.fail("charged-but-not-stored", "`Watcher::add_appointment` can return after `add_update_appointment` succeeded without storing the appointment: the request is refused (or lost) but the user's balance has changed", where=b.line_of(sw))
     rr.require_floor(5, "CBS instances")
     return rr
+
+
+def rule_AT4(ctx, tier):
+    rr = RuleResult("AT4", "block disconnection vs a concurrent trigger: the index is purged before the reorged trackers are collected")
+    P = ctx.prog
+    b = P.require("<teos::responder::Responder as lightning::chain::Listen>::block_disconnected")
+    scans = [bb for bb, t in b.calls() if (call_target(t) or "").endswith("DBM::load_trackers_with_confirmation_status")]
+    purges = [bb for bb, t in b.calls() if (call_target(t) or "").endswith("::remove_disconnected_block")]
+    if not scans or not purges:
+        rr.anchor_missing("remove_disconnected_block / load_trackers_with_confirmation_status in Responder::block_disconnected")
+        return rr
+    before = ctx.pf.called_before(b)
+    for sc in scans:
+        if any(n.endswith("::remove_disconnected_block") for n in before.get(sc, set())):
+            rr.ok("Responder::block_disconnected removes the block from the index before looking for trackers confirmed in it",
+                  sample={"rule": "AT4", "order": "tx_index.remove_disconnected_block -> dbm.load_trackers_with_confirmation_status(ConfirmedIn(h))",
+                          "why": "handle_breach looks the penalty up and stores the tracker under the tx_index lock: with this order it either stores before the scan (flagged as reorged) or misses the block (tracked as in mempool)"})
+        else:
+            rr.fail("reorg-scan-before-purge", "`Responder::block_disconnected` collects the trackers confirmed in the disconnected block before the block leaves the index: a concurrent `handle_breach` can find the penalty in that block and store `ConfirmedIn(h)` after the scan — never flagged as reorged, never rebroadcast, completed and refunded 100 blocks later", where=b.line_of(sc))
+    # the Watcher's side: its cache entry for the block goes away in block_disconnected too (TH checks the driver discipline)
+    return rr
